@@ -583,8 +583,8 @@ func runC08(c *fw.Ctx, idx int) fw.Result {
 			res.Count("cases_with_pair_on_threshold_boundary", 1)
 		}
 	}
-	refTxt := gen.RefFasta("root", in.Ref, gen.PickLineWidth(r, len(in.Ref)))
-	qTxt, tTxt := gen.RenderFasta(in.Queries, gen.PickLineWidth(r, len(in.Ref))), gen.RenderFasta(in.Targets, gen.PickLineWidth(r, len(in.Ref)))
+	refTxt := noFinalNL(r, gen.RefFasta("root", in.Ref, gen.PickLineWidth(r, len(in.Ref))))
+	qTxt, tTxt := noFinalNL(r, gen.RenderFasta(in.Queries, gen.PickLineWidth(r, len(in.Ref)))), noFinalNL(r, gen.RenderFasta(in.Targets, gen.PickLineWidth(r, len(in.Ref))))
 	// the inputs as alignments or as the CSV that `updown list` makes of them: the same neighbours
 	qForm, tForm, qIn, tIn := "fasta", "fasta", qTxt, tTxt
 	if idx%4 == 1 {
